@@ -1332,7 +1332,10 @@ fn case_qtwin(r: &mut Rng, out: &mut Out, forced: bool) {
     if dump_of(&twin).is_none() {
         return; // needs the hook
     }
-    let n_ins = if forced { 12 } else { *r.pick(&[3usize, 9, 10, 11, 14, 20]) };
+    let binary = matches!(qt, QuantizationType::Binary);
+    // binary + rescoring: many vectors and a small k, so that the hamming pre-ranking and the exact
+    // rescoring see more candidates than they may return
+    let n_ins = if forced { 12 } else if binary { *r.pick(&[9usize, 14, 20, 20]) } else { *r.pick(&[3usize, 9, 10, 11, 14, 20]) };
     let mut live: BTreeMap<u64, Vec<i64>> = BTreeMap::new();
     let mut terms: Vec<String> = Vec::new();
     let mut human: Vec<String> = Vec::new();
@@ -1380,6 +1383,8 @@ fn case_qtwin(r: &mut Rng, out: &mut Out, forced: bool) {
     let fq = f32v(&q, 0);
     let k: usize = if forced {
         usize::MAX
+    } else if binary && r.chance(1, 2) {
+        1 + r.below(3) as usize
     } else {
         match r.below(10) {
             0 => 0,
